@@ -5,7 +5,10 @@ package build
 
 import "github.com/thought-machine/please/src/core"
 
-func init() { vpRegister("vpH_C07_order", vpH_C07_order) }
+func init() {
+	vpRegister("vpH_C07_order", vpH_C07_order)
+	vpRegister("vpH_C07_inputs", vpH_C07_inputs)
+}
 
 func vpC07Build(rev bool, group int) *core.BuildTarget {
 	t := core.NewBuildTarget(core.BuildLabel{PackageName: "p", Name: "t"})
@@ -75,4 +78,38 @@ func vpH_C07_order() {
 	vpAssert("rule-hash-order-independent", vpBytesEq(h1, h2))
 	h3 := ruleHash(state, t1, runtime)
 	vpAssert("rule-hash-repeatable", vpBytesEq(h1, h3))
+}
+
+// vpH_C07_inputs: the source hash feeds on the inputs in the order IterSources
+// yields them. A target requiring two languages that one of its sources provides
+// separately: the order of its inputs, and with it the source hash and $SRCS, is
+// the same under every map iteration order.
+func vpH_C07_inputs() {
+	state := vpC08State()
+	mk := func(name string, outs ...string) *core.BuildTarget {
+		t := core.NewBuildTarget(core.BuildLabel{PackageName: "q", Name: name})
+		for _, o := range outs {
+			t.AddOutput(o)
+		}
+		state.Graph.AddTarget(t)
+		return t
+	}
+	a, b := mk("a", "a.go"), mk("b", "b.h")
+	lib := mk("lib", "lib.txt")
+	lib.AddProvide("go", []core.BuildLabel{a.Label})
+	lib.AddProvide("cc_hdrs", []core.BuildLabel{b.Label})
+	t := mk("t", "o")
+	t.AddRequire("go")
+	t.AddRequire("cc_hdrs")
+	t.AddSource(lib.Label)
+	collect := func() string {
+		s := ""
+		for full, tmp := range core.IterSources(state, state.Graph, t, false) {
+			s += full + ">" + tmp + ";"
+		}
+		return s
+	}
+	first := collect()
+	vpAssert("both-provided-targets-are-inputs", len(first) > 0)
+	vpAssert("input-order-independent-of-map-order", collect() == first)
 }
